@@ -1,0 +1,59 @@
+// Copyright 2026 The Cockroach Authors.
+//
+// Licensed under the Apache License, Version 2.0 (the "License");
+// you may not use this file except in compliance with the License.
+// You may obtain a copy of the License at
+//
+//     http://www.apache.org/licenses/LICENSE-2.0
+//
+// Unless required by applicable law or agreed to in writing, software
+// distributed under the License is distributed on an "AS IS" BASIS,
+// WITHOUT WARRANTIES OR CONDITIONS OF ANY KIND, either express or
+// implied. See the License for the specific language governing
+// permissions and limitations under the License.
+
+//go:build verif
+// +build verif
+
+package redact
+
+import (
+	b "github.com/cockroachdb/redact/internal/buffer"
+	"github.com/cockroachdb/redact/internal/escape"
+	ifmt "github.com/cockroachdb/redact/internal/rfmt"
+)
+
+// This file is only compiled with the "verif" build tag. It
+// re-exports internal entry points for external verification
+// harnesses, which cannot import internal packages.
+
+// VerifBufferState is the hidden state of a ManualBuffer / StringBuilder,
+// as returned by their VerifState method.
+type VerifBufferState = b.VerifState
+
+// Output modes of ManualBuffer.
+const (
+	VerifUnsafeEscaped = b.UnsafeEscaped
+	VerifSafeEscaped   = b.SafeEscaped
+	VerifSafeRaw       = b.SafeRaw
+)
+
+// VerifOutputMode is the type of the output mode of ManualBuffer.
+type VerifOutputMode = b.OutputMode
+
+// VerifInternalEscapeBytes exposes the internal escaping routine.
+func VerifInternalEscapeBytes(buf []byte, startLoc int, breakNewLines, strip bool) []byte {
+	return escape.InternalEscapeBytes(buf, startLoc, breakNewLines, strip)
+}
+
+// VerifResetSafeTypes empties the registry of safe types.
+func VerifResetSafeTypes() { ifmt.VerifResetSafeTypes() }
+
+// VerifPoolNews returns the number of printers allocated so far.
+func VerifPoolNews() int64 { return ifmt.VerifPoolNews() }
+
+// VerifDrainPool empties the printer pool.
+func VerifDrainPool() int { return ifmt.VerifDrainPool() }
+
+// VerifPoolInspect describes one pooled printer.
+func VerifPoolInspect() (string, bool) { return ifmt.VerifPoolInspect() }
